@@ -6,4 +6,12 @@ LEAN_TARGETS = ['VectorModel.Refine.Planar', 'VectorModel.Refine.SpatialZ', 'Vec
 THEOREM_FILES = ['VectorModel/Refine/Planar.lean', 'VectorModel/Refine/SpatialZ.lean', 'VectorModel/Refine/SpatialAcc.lean', 'VectorModel/Refine/SpatialBin.lean', 'VectorModel/Refine/SpatialRot.lean', 'VectorModel/Refine/LorentzAcc.lean', 'VectorModel/Refine/LorentzBin.lean']
 NOT_COVERED = ['singular strata (zero vector, exactly on the z axis with theta/eta storage, t = 0): no real-number meaning in the model (DESIGN.md 3.4)', 'float64 rounding', 'isclose across systems (C12 defines it coordinate-wise in the stored system)', 'equal/not_equal soundness across systems (covered structurally by C12; see DESIGN.md)']
 ALWAYS_SEARCH = True          # the law sweep on the real code is cheap: run it in every tier (exploration, not proof)
-search = search_with("c01")
+_law_search = search_with("c01")
+
+
+def search(ctx, broken):
+    """C01 law sweep + (for equal/not_equal, whose cross-system variants have no rounding-robust numeric oracle) the structural
+    laws of C12 on exactly convertible operands"""
+    from harness import c12
+    return _law_search(ctx, broken) + [dict(f, key="equal:" + f["key"]) for f in c12.search(ctx, broken)]
+FINDINGS_TARGETS = ["VectorModel.Findings.C01"]
